@@ -145,7 +145,6 @@ impl Decode for IdRanges<()> {
             lemma_read_progress::<u32>(s0, s1, Ok::<u32, Error>(len));
             lemma_suffix_refl(s1);
             lemma_dec_list_start(range_item(), s1, len as nat);
-            assert(s1.skip(0) =~= s1);
         }
     @loop 1 iter=it
         invariant
@@ -185,10 +184,8 @@ impl Decode for IdRanges<()> {
         proof {
             lemma_suffix_step(s0, s1, decoder.rest());
             if D::v1() {
-                let k = dec_u32(s0)->Some_0.1;
                 lemma_dec_u32_bounded(s0);
-                assert(s0.skip(k as int).skip(kk as int) =~= s0.skip((k + kk) as int));
-                assert(ranges@ + Seq::<Ent<()>>::empty() =~= ranges@);
+                lemma_counted_finish(range_item(), s0, dec_u32(s0)->Some_0.1, len as nat, s1, ranges@, kk);
             }
         }
     @*/
@@ -366,7 +363,6 @@ impl Decode for IdSet {
             lemma_read_progress::<u32>(s0, s1, Ok::<u32, Error>(client_len));
             lemma_suffix_refl(s1);
             lemma_dec_list_start(idset_item(), s1, client_len as nat);
-            assert(s1.skip(0) =~= s1);
         }
     @loop 1
         invariant
@@ -431,10 +427,8 @@ impl Decode for IdSet {
             lemma_suffix_step(s0, s1, decoder.rest());
             lemma_map_of_len(items);
             if D::v1() {
-                let k = dec_u32(s0)->Some_0.1;
                 lemma_dec_u32_bounded(s0);
-                assert(s0.skip(k as int).skip(kk as int) =~= s0.skip((k + kk) as int));
-                lemma_dec_list_done(idset_item(), decoder.rest(), items, kk);
+                lemma_counted_finish(idset_item(), s0, dec_u32(s0)->Some_0.1, client_len as nat, s1, items, kk);
             }
         }
     @*/
